@@ -365,7 +365,8 @@ impl VariablesState {
                 _ => false,
             },
             ValueType::Float(val) => match default_val.value {
-                ValueType::Float(default_val) => *val == default_val,
+                // By bits: -0.0 == 0.0, but they are not the same value (they print differently)
+                ValueType::Float(default_val) => val.to_bits() == default_val.to_bits(),
                 _ => false,
             },
             ValueType::List(val) => match &default_val.value {
